@@ -20,7 +20,8 @@ SPEC = dict(
         "patterns are the unambiguous grammar G (exactly one parse of every generated text)",
         "cases where old and new are both non-PEP 440 are outside the model (counted as discarded)",
     ],
-    required=["agree:accepted", "agree:refused", "subprocess_replays", "update_command_replays"],
+    required=["agree:accepted", "agree:refused", "subprocess_replays", "update_command_replays",
+              "noncanonical_start_versions"],
     anchors=[("v2version", "_incr_numeric"), ("v2version", "_reset_rollover_fields"), ("v2version", "incr"),
              ("v2version", "_is_cal_gt"), ("cli", "_validate_flags")],
 )
@@ -66,7 +67,14 @@ def cases(ctx):
             date = d + dt.timedelta(off)
         except OverflowError:
             date = d
-        yield {"p": p, "state": st, "date": date.isoformat(), "flags": fl}
+        case = {"p": p, "state": st, "date": date.isoformat(), "flags": fl}
+        if "[" in p and i % 7 == 3:
+            # a current version the pattern accepts without being its canonical rendering: optional groups left out
+            # although their parts are not zero (hand-written config values, tags of older releases)
+            t = ref.render_omitting(ast, st, R)
+            if t and t != ref.render(ast, st) and ref.parse(ast, t) is not None:
+                case = {"p": p, "old": t, "date": date.isoformat(), "flags": fl, "noncanonical": True}
+        yield case
 
 
 def gate(old, new):
@@ -120,6 +128,10 @@ def run_case(ctx, case):
         old_text = case["old"]
         raw = ref.parse(ast, old_text)
         old = ref.state_from_raw(raw, today) if raw else None
+        if case.get("noncanonical"):
+            if ref.n_full_parses(ast, old_text) != 1:
+                raise harness.Skip("ambiguous-text")
+            ctx.count("noncanonical_start_versions")
     else:
         r = gen.reachable(ast, case["state"], today)
         if r is None:
